@@ -102,6 +102,16 @@ def run_simulate(model, opts=None, init_state=True, init_log=True, abort_at=None
 
 def run_case_simulate(cfg):
     """The basic case: build, simulate once, record."""
-    m = Model(cfg)
-    r = run_simulate(m)
-    return {"cfg": cfg, "runs": [r]}
+    return run_case({"kind": "simulate", "cfg": cfg})
+
+
+def run_case(spec):
+    """Execute one case specification on the real code; returns the case record."""
+    cfg = spec["cfg"]
+    kind = spec["kind"]
+    if kind == "simulate":
+        m = Model(cfg)
+        runs = [run_simulate(m)]
+    else:
+        raise ValueError("unknown case kind %r" % kind)
+    return {"cfg": cfg, "runs": runs, "spec": spec}
